@@ -119,6 +119,10 @@ class Add(AbstractCommand):
         executable = super().can_execute
         executable = executable and self.value is not None
         self._collection = self.owner.eGet(self.feature)
+        if executable and self.feature.unique \
+                and self.value in self._collection:
+            # nothing would be added: there would be nothing to undo
+            executable = False
         return executable
 
     @property
